@@ -252,6 +252,72 @@ def _oracle_cache_c11(case, impl):
     return r
 
 
+def oracle_realep(case, impl):
+    import re
+    """the endpoint stack as configuration strings build it: where did each request go, was it a query, who was elected"""
+    f = case.split(" ")
+    if impl.startswith(("PANIC", "TIMEOUT", "ERR")) or impl == "bad-op":
+        return "realep did not complete: " + impl[:100]
+    layout = [r.split("+") for r in f[1].split("/")]
+    ops = f[2].split(",")
+    outs = impl.split(" ")
+    if len(outs) != len(ops):
+        return "realep: %d outputs for %d operations" % (len(outs), len(ops))
+    down, kill = set(), 0
+    active = [None] * len(layout)
+
+    def path_of(ep, prof):
+        return ("/" if prof == "-" else "/" + prof) if ep == "-" else "/" + ep
+
+    def elect(eps):
+        for e in eps:
+            if path_of(e, "-")[1:] not in down:
+                return e
+        return eps[0]
+    for op, out in zip(ops, outs):
+        if op[0] == "d":
+            down.add(op[1:])
+        elif op[0] == "u":
+            down.discard(op[1:])
+        elif op[0] == "k":
+            kill = int(op[1:])
+        elif op[0] == "e":
+            i = int(op[1:])
+            if out != "e=0":
+                return "election on resolver %d: a probe reached the server as a message that is not a query (QR set)" % i
+            active[i] = elect(layout[i])
+        elif op[0] == "q":
+            i, prof = op[1:].split(":")
+            i = int(i)
+            m = re.match(r"q=([^|]*)\|([01])\|(ok|err)$", out)
+            if not m:
+                return "unexpected output " + out[:60]
+            paths, bad, res = m.group(1).split("+"), m.group(2), m.group(3)
+            if active[i] is None:
+                active[i] = elect(layout[i])
+            want = path_of(active[i], prof)
+            if bad == "1":
+                return "a request of query %s reached the server as a message that is not a query" % op
+            others = [p for p in paths if p not in (want, "-")]
+            if others:
+                allowed = {path_of(e, prof) for e in layout[i]}
+                if any(p not in allowed for p in others):
+                    return ("query %s (resolver %d = upstream(s) %s, profile %s): a request for it reached path %s; the upstream chosen for "
+                            "it is %s" % (op, i, "+".join(layout[i]), prof, ",".join(others), want))
+                return ("query %s went to %s; the election before it (endpoints %s in preference order, failing: %s) elects %s"
+                        % (op, ",".join(others), "+".join(layout[i]), ",".join(sorted(down)) or "none", want))
+            if len([p for p in paths if p != "-"]) > 1:
+                return "query %s was sent %d times (%s): an exchange is one request" % (op, len(paths), "+".join(paths))
+            fails = kill > 0 or want[1:] in down
+            if kill > 0:
+                kill -= 1
+            if not fails and res != "ok":
+                return "query %s failed although its upstream %s serves" % (op, want)
+            if not fails and paths == ["-"]:
+                return "query %s: nothing reached the server" % op
+    return None
+
+
 SPEC = dict(
         lean_module="NV.Props.C11",
         level_text="Kernel-checked theorems for every ordered profile list and client tuple: Profiles.Get returns the first conditional entry "
@@ -266,7 +332,8 @@ SPEC = dict(
                    "and the parsed fields are handed to the model); url.Parse for ids of URL-unreserved characters; the two closures of run.go "
                    "are modelled (package main cannot be linked into the harness) with their condition and URL literals regenerated by the "
                    "translator. IPNet.String equality in Set is modelled as equality of networkNumberAndMask.",
-        areas=[dict(name="localaddr", n_quick=25, n_thorough=300, shards_thorough=2, oracle=oracle_pwire, timeout=600),
+        areas=[dict(name="realep", n_quick=25, n_thorough=400, shards_thorough=2, oracle=oracle_realep, timeout=900),
+               dict(name="localaddr", n_quick=25, n_thorough=300, shards_thorough=2, oracle=oracle_pwire, timeout=600),
                dict(name="cache", n_quick=700, n_thorough=12000, shards_thorough=8, oracle=_oracle_cache_c11, nontrivial=lambda c, i: "cc," in i or ",up=D:" in i, timeout=900),
                dict(name="prof", n_quick=80000, n_thorough=1600000, shards_thorough=8, oracle=oracle_prof,
                     nontrivial=lambda c, i: " get=- " not in i),
